@@ -335,111 +335,13 @@ pub fn seeds() -> Vec<(&'static str, Seed)> {
 
 static EVALS: AtomicU64 = AtomicU64::new(0);
 
-// ---------------------------------------------------------------------------
-// Aborts and hangs: a stack overflow or abort() cannot be caught in-process, and an unbounded loop
-// never returns.  The whole check therefore runs in a supervised child process.  Every thread
-// publishes the input it is working on in a slot; a SIGABRT handler (on the alternate signal
-// stack) and a watchdog thread write the offending input to a file and leave with a distinctive
-// exit status, which the supervising parent turns into a violation with a replayable input.
-// ---------------------------------------------------------------------------
-const NSLOTS: usize = 128;
-struct Slot {
-    ptr: std::sync::atomic::AtomicUsize,
-    len: std::sync::atomic::AtomicUsize,
-    target: std::sync::atomic::AtomicUsize,
-    since_ms: AtomicU64,
-}
-#[allow(clippy::declare_interior_mutable_const)]
-const SLOT0: Slot = Slot { ptr: std::sync::atomic::AtomicUsize::new(0), len: std::sync::atomic::AtomicUsize::new(0), target: std::sync::atomic::AtomicUsize::new(0), since_ms: AtomicU64::new(0) };
-static SLOTS: [Slot; NSLOTS] = [SLOT0; NSLOTS];
-static NEXT_SLOT: std::sync::atomic::AtomicUsize = std::sync::atomic::AtomicUsize::new(0);
-static ABORT_FD: std::sync::atomic::AtomicI32 = std::sync::atomic::AtomicI32::new(-1);
-thread_local! {
-    static MY_SLOT: std::cell::Cell<usize> = const { std::cell::Cell::new(usize::MAX) };
-}
-const EXIT_ABORT: i32 = 86;
-const EXIT_HANG: i32 = 87;
 const HANG_SECS: u64 = 120;
-
-fn my_slot() -> usize {
-    MY_SLOT.with(|c| {
-        if c.get() == usize::MAX {
-            c.set(NEXT_SLOT.fetch_add(1, Ordering::SeqCst) % NSLOTS);
-        }
-        c.get()
-    })
-}
-
-fn mono_ms() -> u64 {
-    let mut ts: libc::timespec = unsafe { std::mem::zeroed() };
-    unsafe { libc::syscall(libc::SYS_clock_gettime, libc::CLOCK_MONOTONIC, &mut ts) };
-    ts.tv_sec as u64 * 1000 + ts.tv_nsec as u64 / 1_000_000
-}
-
-/// async-signal-safe: write `kind` (1 octet), the target index (1 octet) and the input of `slot`
-unsafe fn dump_slot(slot: usize, kind: u8) {
-    let fd = ABORT_FD.load(Ordering::SeqCst);
-    if fd < 0 {
-        return;
-    }
-    let s = &SLOTS[slot];
-    let hdr = [kind, s.target.load(Ordering::SeqCst) as u8];
-    unsafe {
-        libc::write(fd, hdr.as_ptr() as *const libc::c_void, 2);
-        let (p, l) = (s.ptr.load(Ordering::SeqCst), s.len.load(Ordering::SeqCst));
-        if p != 0 && l > 0 {
-            libc::write(fd, p as *const libc::c_void, l);
-        }
-    }
-}
-
-extern "C" fn on_abort(_sig: libc::c_int) {
-    let slot = MY_SLOT.with(|c| c.get());
-    unsafe {
-        if slot != usize::MAX {
-            dump_slot(slot, b'A');
-        }
-        libc::_exit(EXIT_ABORT)
-    }
-}
-
-/// Called once in the supervised child.
-fn install_abort_capture(path: &str) {
-    let c = std::ffi::CString::new(path).unwrap();
-    let fd = unsafe { libc::open(c.as_ptr(), libc::O_WRONLY | libc::O_CREAT | libc::O_TRUNC, 0o600) };
-    ABORT_FD.store(fd, Ordering::SeqCst);
-    unsafe {
-        let mut sa: libc::sigaction = std::mem::zeroed();
-        sa.sa_sigaction = on_abort as usize;
-        sa.sa_flags = libc::SA_ONSTACK;
-        libc::sigaction(libc::SIGABRT, &sa, std::ptr::null_mut());
-    }
-    std::thread::spawn(|| loop {
-        std::thread::sleep(std::time::Duration::from_secs(2));
-        let now = mono_ms();
-        for (i, s) in SLOTS.iter().enumerate() {
-            let t = s.since_ms.load(Ordering::SeqCst);
-            if t != 0 && now.saturating_sub(t) > HANG_SECS * 1000 {
-                unsafe {
-                    dump_slot(i, b'H');
-                    libc::_exit(EXIT_HANG)
-                }
-            }
-        }
-    });
-}
 
 fn run_one(t: Target, b: &[u8], kind: &str) -> (String, Option<Violation>) {
     EVALS.fetch_add(1, Ordering::Relaxed);
-    let slot = &SLOTS[my_slot()];
-    slot.target.store(TARGETS.iter().position(|x| x.0 == t.0).unwrap_or(0), Ordering::SeqCst);
-    slot.len.store(b.len(), Ordering::SeqCst);
-    slot.ptr.store(b.as_ptr() as usize, Ordering::SeqCst);
-    slot.since_ms.store(mono_ms(), Ordering::SeqCst);
-    let r = run_one_inner(t, b, kind);
-    slot.since_ms.store(0, Ordering::SeqCst);
-    slot.ptr.store(0, Ordering::SeqCst);
-    r
+    // the input is published so that an abort or a hang can name it (common/supervise.rs)
+    let _g = crate::common::supervise::publish(TARGETS.iter().position(|x| x.0 == t.0).unwrap_or(0), b);
+    run_one_inner(t, b, kind)
 }
 
 fn run_one_inner(t: Target, b: &[u8], kind: &str) -> (String, Option<Violation>) {
@@ -726,58 +628,12 @@ pub fn run_case(case: &Value) -> CaseResult {
     res
 }
 
-/// Parent side: run the check proper in a child; turn an abort or a hang into a violation.
-fn supervise(tier: &str, replay: &Option<Value>) -> ! {
-    let exe = std::env::current_exe().expect("current_exe");
-    let abort_file = format!("/dev/shm/erbium-verif-c05-{}.abort", std::process::id());
-    let _ = std::fs::remove_file(&abort_file);
-    let args: Vec<String> = std::env::args().skip(1).collect();
-    let st = std::process::Command::new(&exe).args(&args).env("VERIF_C05_CHILD", &abort_file).status();
-    let dump = std::fs::read(&abort_file).unwrap_or_default();
-    let _ = std::fs::remove_file(&abort_file);
-    let code = match &st {
-        Ok(s) => s.code(),
-        Err(_) => None,
-    };
-    if let Some(c) = code {
-        if c == 0 || c == 1 || c == 2 {
-            std::process::exit(c);
-        }
-    }
-    // abnormal end of the child: abort (stack overflow, abort(), allocation failure), hang, or a signal
-    let mut rep = Report::new("C05", if replay.is_some() { "quick" } else { tier }, "exploration");
-    rep.replay_mode = replay.is_some();
-    let how = match (code, dump.first()) {
-        (Some(EXIT_HANG), _) | (_, Some(b'H')) => format!("did not return within {HANG_SECS} s (unbounded loop)"),
-        (Some(EXIT_ABORT), _) => "aborted the process (stack overflow or abort(): not a catchable panic)".to_string(),
-        _ => format!("killed the process ({:?})", st),
-    };
-    if dump.len() >= 2 {
-        let t = TARGETS[(dump[1] as usize).min(TARGETS.len() - 1)];
-        let b = &dump[2..];
-        rep.violation(
-            Violation::new("abort", format!("{} handler {how} on a {}-octet input", t.0, b.len()), json!({"engine":"c05","target":t.0,"bytes":hex(b)}))
-                .sig("target", t.0)
-                .sig("how", if dump[0] == b'H' { "hang" } else { "abort" }),
-        );
-    } else if let Some(case) = replay {
-        // a replayed input that ends the process is the violation reproduced
-        let case = if case.get("case").is_some() { case["case"].clone() } else { case.clone() };
-        rep.violation(Violation::new("abort", format!("the replayed input {how}"), case).sig("how", "abort"));
-    } else {
-        rep.machinery_error(format!("the check process ended abnormally without naming an input: {:?}", st));
-    }
-    rep.cov("evaluations", 0u64);
-    rep.cov("distinct_nontrivial", 0u64);
-    rep.cov("exhaustive", false);
-    rep.cov("rule", "the run ended at the first input that aborted or hung the process; nothing after it was explored");
-    rep.finish()
-}
-
 pub fn run(tier: &str, replay: Option<Value>) -> ! {
-    match std::env::var("VERIF_C05_CHILD") {
-        Ok(path) => install_abort_capture(&path),
-        Err(_) => supervise(tier, &replay),
+    if !crate::common::supervise::install_if_child("VERIF_C05_CHILD", HANG_SECS) {
+        crate::common::supervise::supervise("C05", tier, "exploration", &replay, "VERIF_C05_CHILD", HANG_SECS, &|tag, b, how, hang| {
+            let t = TARGETS[tag.min(TARGETS.len() - 1)];
+            Violation::new("abort", format!("{} handler {how} on a {}-octet input", t.0, b.len()), json!({"engine":"c05","target":t.0,"bytes":hex(b)})).sig("target", t.0).sig("how", if hang { "hang" } else { "abort" })
+        });
     }
     let mut rep = Report::new("C05", if replay.is_some() { "quick" } else { tier }, "exploration");
     if let Some(case) = replay {
